@@ -77,6 +77,16 @@ fn env_wire(m: &Model) -> String {
 
 /// an identifier the R1C1 lexer reads as a reference: R / C with optional numbers or [offsets]
 fn looks_r1c1(name: &str) -> bool {
+    // R<row>C<column> with either part missing or in brackets: "R1C", "RC2", "R[1]C" — followed by a sign or a digit the
+    // R1C1 lexer completes it to a reference ("R1C+1" is R1C1)
+    let u = name.to_uppercase();
+    if let Some(rest) = u.strip_prefix('R') {
+        if let Some(ci) = rest.find('C') {
+            let (a, b2) = (&rest[..ci], &rest[ci + 1..]);
+            let part = |p: &str| p.is_empty() || p.chars().all(|c| c.is_ascii_digit()) || (p.starts_with('[') && p.ends_with(']'));
+            if part(a) && part(b2) { return true; }
+        }
+    }
     let en = get_language("en").unwrap();
     let loc = get_locale("en").unwrap();
     let t = tokens(name, true, loc, en);
@@ -313,14 +323,16 @@ fn pool_workbook(rng: &mut Rng, k: u64) -> (UserModel<'static>, Vec<String>) {
     log.push(format!("rename_sheet(1,{second:?})"));
     let q = |s: &str| if s.chars().all(|c| c.is_ascii_alphanumeric()) && !s.chars().next().unwrap().is_ascii_digit() && s != "R1C1" { s.to_string() } else { format!("'{}'", s.replace('\'', "''")) };
     let sheets = vec!["Sheet1".to_string(), q(second), "Sheet3".to_string()];
-    for (n, sc, f) in [("Name1", None, "Sheet1!$A$1"), ("rate", None, "Sheet1!$B$2:$B$4"), ("local_n", Some(0u32), "Sheet1!$C$3"), ("inc", None, "=LAMBDA(x,x+1)")] {
+    // ... among them names that start like an R1C1 reference (global and sheet-local) and an A1 twin
+    for (n, sc, f) in [("Name1", None, "Sheet1!$A$1"), ("rate", None, "Sheet1!$B$2:$B$4"), ("local_n", Some(0u32), "Sheet1!$C$3"), ("inc", None, "=LAMBDA(x,x+1)"),
+                       ("R2C2_total", None, "Sheet1!$B$2"), ("rc_local", Some(0u32), "Sheet1!$A$2"), ("R1C1.rate", Some(1u32), "Sheet1!$C$1"), ("A1_x", None, "Sheet1!$A$3"), ("r5c5fn", None, "=LAMBDA(R1C1x,R1C1x*2)")] {
         let _ = um.new_defined_name(n, sc, f);
     }
     // plain data
     for r in 1..=6 { for c in 1..=3 { let _ = um.set_user_input(0, r, c, &format!("{}", (r * 7 + c * 3) % 11)); } }
     let _ = um.set_user_input(1, 1, 1, "5");
     let _ = um.set_user_input(1, 2, 1, "text");
-    let g = FGen { sheets: sheets.clone(), names: vec!["Name1".into(), "rate".into(), "local_n".into(), "inc(2)".into()], max_row: 12, max_col: 6,
+    let g = FGen { sheets: sheets.clone(), names: vec!["Name1".into(), "rate".into(), "local_n".into(), "inc(2)".into(), "R2C2_total".into(), "rc_local".into(), "R1C1.rate".into(), "A1_x".into(), "r5c5fn(3)".into(), "r2c2_TOTAL".into()], max_row: 12, max_col: 6,
                    long_numbers: k % 3 == 0, errors: true, arrays: true, spills: k % 4 == 1, upper_user_fn: k % 5 == 2 };
     let n = 12 + rng.below(20);
     for _ in 0..n {
@@ -467,6 +479,8 @@ fn main() {
     for f in FIXED_POOL {
         let mut um = fresh();
         let _ = um.new_defined_name("Name1", None, "Sheet1!$A$1");
+        let _ = um.new_defined_name("R2C2_total", None, "Sheet1!$A$2");
+        let _ = um.new_defined_name("rc_local", Some(0), "Sheet1!$A$1");
         let _ = um.rename_sheet(1, "Sheet 2");
         if catch_unwind(AssertUnwindSafe(|| um.set_user_input(0, 3, 3, f))).is_err() { continue; }
         run.check_state(&mut um, "fixed", &json!({"formula": f}));
